@@ -279,7 +279,7 @@ impl Check for C19 {
     fn cases(&self, tier: Tier) -> u64 {
         match tier {
             Tier::Quick => 400,
-            Tier::Thorough => 12_000,
+            Tier::Thorough => 3000,
         }
     }
     fn langs(&self) -> Vec<&'static str> {
